@@ -8,6 +8,8 @@ import (
 
 	pb "github.com/ipfs/boxo/ipld/unixfs/pb"
 	"github.com/ipfs/go-cid"
+	quickbuilder "github.com/ipfs/go-unixfsnode/data/builder/quick"
+	cidlink "github.com/ipld/go-ipld-prime/linking/cid"
 
 	"verif/harness/core"
 	"verif/harness/gen"
@@ -99,7 +101,7 @@ func sizeAudit(s *store.Store, root cid.Cid, viol func(sig, detail string)) (uin
 
 // c11Case is either a file or a directory (of files) build.
 type c11Case struct {
-	Kind   string   `json:"kind"` // file | sharded | plain | auto | dir-of-files
+	Kind   string   `json:"kind"` // file | sharded | plain | auto | dir-of-files | quick
 	File   fileCase `json:"file,omitempty"`
 	Fanout int      `json:"fanout,omitempty"`
 	Names  []string `json:"names,omitempty"`
@@ -108,6 +110,9 @@ type c11Case struct {
 func (c c11Case) String() string {
 	if c.Kind == "file" {
 		return "file " + c.File.String()
+	}
+	if c.Kind == "quick" {
+		return fmt.Sprintf("quick L=%d", c.File.L)
 	}
 	return fmt.Sprintf("%s F=%d n=%d %q", c.Kind, c.Fanout, len(c.Names), trimNames(c.Names))
 }
@@ -171,6 +176,35 @@ func (c c11Case) run(viol func(sig, detail string), r *core.Run) {
 				root, sz, err = gen.OursDir(s, es)
 			}
 		}
+	case "quick":
+		// the quick builder: files of the lengths in File.L (and half of it),
+		// single-block and multi-block (default chunker: 256 KiB), in nested map
+		// directories; every Node.Size() is audited, not only the root's
+		s = store.New()
+		if pnk, pv := core.Guard(func() {
+			err = quickbuilder.Store(s.LinkSystem(), func(b *quickbuilder.Builder) error {
+				check := func(what string, n quickbuilder.Node) {
+					nsz, _ := n.Size()
+					sum, _ := sizeAudit(s, n.Link().(cidlink.Link).Cid, func(sig, detail string) { viol(sig+" quick", c.String()+" "+what+": "+detail) })
+					if uint64(nsz) != sum {
+						viol("returned-size quick", fmt.Sprintf("%s: %s reports Size() %d, tree sum of stored blocks is %d", c, what, nsz, sum))
+					}
+				}
+				f1 := b.NewBytesFile(gen.Content(c.File.L, 4096, "distinct"))
+				check("file", f1)
+				f2 := b.NewBytesFile(gen.Content(c.File.L/2, 4096, "equal"))
+				check("half-file", f2)
+				inner := b.NewMapDirectory(map[string]quickbuilder.Node{"f2": f2, "f1 again": f1})
+				check("inner-dir", inner)
+				top := b.NewMapDirectory(map[string]quickbuilder.Node{"a": f1, "d": inner, "z": f2})
+				root = top.Link().(cidlink.Link).Cid
+				tsz, _ := top.Size()
+				sz = uint64(tsz)
+				return nil
+			})
+		}); pnk {
+			err = fmt.Errorf("panic: %v", pv)
+		}
 	default:
 		err = fmt.Errorf("unknown kind")
 	}
@@ -233,6 +267,9 @@ func runC11(r *core.Run) {
 			cases = append(cases, c11Case{Kind: "dir-of-files", Names: names})
 			cases = append(cases, c11Case{Kind: "dir-of-files", Fanout: 8, Names: names})
 		}
+	}
+	for _, L := range []int{0, 1, 2, 262144, 262145, 262146, 524288, 524290, 800000} {
+		cases = append(cases, c11Case{Kind: "quick", File: fileCase{L: L}})
 	}
 	// auto-selecting builder straddling the shard threshold
 	cases = append(cases, c11Case{Kind: "auto", Names: thresholdNames(262144)}, c11Case{Kind: "auto", Names: thresholdNames(262145)})
